@@ -1,0 +1,6 @@
+//go:build !verif
+
+package pilosa
+
+// verifExecGate is a no-op without build tag verif (see verif_hook_exec_on.go).
+func verifExecGate(point string, kv ...interface{}) {}
